@@ -29,7 +29,7 @@ def qs_quantized_bits : QSpec :=
     emits := ["bits", "integer", "symmetric", "alpha", "keep_negative", "use_stochastic_rounding", "scale_axis", "qnoise_factor", "use_ste", "elements_per_scale", "min_po2_exponent", "max_po2_exponent", "post_training_scale"],
     extra := [],
     trainable := 2,
-    tolist := ["post_training_scale"] }
+    tolist := [] }
 
 def qs_bernoulli : QSpec :=
   { name := "bernoulli",
